@@ -144,6 +144,8 @@ class Interp:
         self.unknown = 0
         self.constructions = []   # (ctx, adt path, {field: formula}, node)
         self.notes = []
+        self.struct_locals = {}   # binding id -> Struct node bound by `let [mut] x = S { .. }` (fields may be assigned later)
+        self.final_fields = {}    # id(Struct node) -> {field: formula at the end of the function}
 
     def fresh(self, why):
         self.unknown += 1
@@ -261,6 +263,16 @@ class Interp:
                         env[pat["id"]] = self.cond(st["init"], env)
                     else:
                         div = mk_or(div, self.walk(st["init"], env, ctx) or Fa)
+                        sn = K.peel(st["init"])
+                        if isinstance(sn, dict) and sn.get("k") == "Struct":
+                            # `let mut x = S { a: None, .. }; if c { x.a = Some(..) }`: follow the fields of x
+                            self.struct_locals[pat["id"]] = sn
+                            for f in sn["fields"]:
+                                fty = K.peel(f["e"]).get("ty", "") if isinstance(K.peel(f["e"]), dict) else ""
+                                if "Option<" in fty:
+                                    env[(pat["id"], f["name"])] = self.opt(f["e"], env)
+                                elif fty == "bool":
+                                    env[(pat["id"], f["name"])] = self.cond(f["e"], env)
                 elif st.get("init") is not None:
                     div = mk_or(div, self.walk(st["init"], env, ctx) or Fa)
             elif k in ("Semi", "ExprStmt"):
@@ -274,6 +286,15 @@ class Interp:
         n = K.peel(n)
         k = n.get("k")
         if k == "Assign":
+            tl = K.peel(n["l"])
+            if tl.get("k") == "Field" and K.local_id(tl["e"]) in self.struct_locals:
+                sl = K.local_id(tl["e"])
+                fty = tl.get("ty", "")
+                if "Option<" in fty:
+                    env[(sl, tl["name"])] = self.opt(n["r"], env)
+                elif fty == "bool":
+                    env[(sl, tl["name"])] = self.cond(n["r"], env)
+                return
             lid = K.local_id(n["l"])
             if lid is not None:
                 ty = K.peel(n["l"]).get("ty", "")
@@ -364,10 +385,15 @@ class Interp:
         h = self.b.hir
         env = {}
         self.walk(h["value"], env, T)
+        for lid, sn in self.struct_locals.items():
+            self.final_fields[id(sn)] = {k_[1]: v for k_, v in env.items() if isinstance(k_, tuple) and k_[0] == lid}
         return self
 
     def field_presence(self, construction, field):
         ctx, adt, fields, node, env = construction
+        ff = self.final_fields.get(id(node))
+        if ff is not None and field in ff:
+            return ff[field]
         e, ty = fields[field]
         if "Option<" in ty:
             return self.opt(e, env)
